@@ -216,6 +216,47 @@ def run(ctx):
             if not mo["valid"]:
                 corr.append({"what": "model: toXml of a well-formed generation is rejected by the model's validator", "replay": {"spec": spec}})
         drv.close()
+    # runs that end with an error half way through their writes (disk full, Ctrl-C): every manifest and chain file that
+    # is then present under its final name is still a valid document
+    try:
+        import errno, shutil
+        from .. import crash, scenario
+
+        def examine(pre, dst, post, label):
+            probs = []
+            for dp, _, fns in os.walk(dst):
+                if os.path.basename(dp) != "ascmhl":
+                    continue
+                for fn in fns:
+                    kind = "manifest" if fn.endswith(".mhl") else ("chain" if fn.endswith(".xml") else None)
+                    if not kind:
+                        continue
+                    ok, err = lxml_valid(ms if kind == "manifest" else ds, open(os.path.join(dp, fn), "rb").read())
+                    if not ok:
+                        probs.append(f"{label}: {os.path.relpath(os.path.join(dp, fn), dst)} is not a valid {kind} document: {err}")
+            return probs
+
+        for exc in (OSError(errno.ENOSPC, "No space left on device (injected)"), KeyboardInterrupt):
+            base = rt.mktemp("c11i_")
+            try:
+                impl = scenario.Impl({"root": "root", "tree": {"a.txt": "alpha", "s/b.txt": "beta", "s/t/c.txt": "gamma"}}, base)
+                for k, d in enumerate(["s/t", "s", "", ""]):
+                    impl.run({"op": "create", "at": d, "h": ["md5"], "now": "2026-03-01 12:00:%02d" % (k + 1)})
+
+                def make_run(copy_root):
+                    im = scenario.Impl.__new__(scenario.Impl)
+                    im.sc, im.base, im.root = {"root": "root", "tree": {}}, os.path.dirname(copy_root), copy_root
+                    im.iifile, im.flat_n = os.path.join(os.path.dirname(copy_root), "_ii.txt"), 0
+                    return lambda: im.run({"op": "create", "at": "", "h": ["sha1", "c4"], "now": "2026-03-01 12:30:00"})
+
+                ri = crash.enumerate_interrupt_states(impl.root, make_run, examine=examine, exc=exc)
+                evals += ri["states"]
+                for p in ri["unrecoverable"]:
+                    fails.append({"what": p, "replay": {"case": "interrupted create", "exception": repr(exc)}})
+            finally:
+                shutil.rmtree(base, ignore_errors=True)
+    except Exception as e:
+        ctx.notes.append(f"interrupted-run validation not run: {e!r}")
     for w in ("D4a", "D4b"):
         for msg in witnesses.ALL[w]():
             fails.append({"what": f"regression of fixed defect {w}: {msg}", "replay": {"witness": w}})
